@@ -16,7 +16,8 @@ def cfgOf (a : Json) : R Cfg := do
     storage := (← boolF c "storage"), uploadProvider := (← boolF c "uploadProvider"), compression := (← boolF c "compression"),
     zstdAvailable := (← boolF c "zstdAvailable"), proofRequired := (← boolF c "proofRequired"),
     introspect := (← boolF c "introspect"), sticky := (← boolF c "sticky"), stickyTtl := (← intF c "stickyTtl"),
-    stickyEcho := (← (← arrF c "stickyEcho").mapM str) }
+    stickyEcho := (← (← arrF c "stickyEcho").mapM str),
+    proxyHint := (match fieldOpt c "proxyHint" with | some (.bool b) => b | _ => false) }
 
 def headersOf (j : Json) : R Headers := do
   (← arr j).mapM (fun p => do
